@@ -39,6 +39,10 @@ CHECKS = {
    technique="exhaustive bounded input enumeration of the real decoders in crash-isolated child processes with a counting allocator; grammar-generated round trips; byte-level differential against the extension's crsql_pack_columns",
    text="Every byte string of length <= 2 (thorough 3) and, for ~150 seed frames generated from a grammar of all message/changeset/need/value variants, every truncation, every single-byte substitution and every 1/4/8-byte window overwritten with 8 boundary values in both endiannesses (thorough: pairs of positions too), through UniPayload/BiPayload/SyncMessage decoding and unpack_columns: outcome must be Ok or Err (no panic, no abort), peak and largest allocation <= 64 KiB + 256 x input length, every decoded text valid UTF-8 and every decoded value re-encodable. Round trip for every seed; pack_columns == crsql_pack_columns byte for byte and unpack(pack(x)) == x for all 1-2 (thorough 3) column tuples from a pool of extreme values plus 255 columns.",
    note="The 100 MiB frame space is covered only in these neighbourhoods. NaN is excluded from the extension differential (SQLite binds NaN as NULL). Harness built with release semantics (no overflow checks / debug assertions), as deployed."),
+ "C10": dict(engine="ingest", design="§5 C10",
+   technique="exhaustive enumeration of arrival sequences through the real handle_changes loop on a real node, with a deterministic overload (write connection held, five fillers occupy the processing slots), followed by bounded re-offer rounds",
+   text="Every arrival sequence of length <= 3 (thorough 4) over 8 colliding changesets of two actors (complete versions, two chunks of one version, a chunk of the other actor, an empty) for processing_queue_len 1..2 (thorough 1..3, apply_queue_len 1..2, and the database released before the last arrival): after the overload every offered changeset is either held and really stored, or not claimed; after at most three re-offer rounds with the database idle every changeset is held. The number of cases in which something was shed is the vacuity guard.",
+   note="The 10 ms flush tick is disabled (apply_queue_timeout = 1 h) so that batching, queueing and dropping are decided by the loop's own rules; a 20 ms start-up wait lets the interval's immediate first tick pass before the first offer. More than 5 concurrent batches interacting with timers at real speed are outside."),
  "C18": dict(engine="members", design="§5 C18",
    technique="explicit-state BFS (stateright) whose transition function calls the real Members::{add_member,remove_member,add_rtt}; invariants from a fold-by-newest reference model evaluated in every reachable state",
    text="All reachable states of the member table for 2 actors (3 and 2 identity timestamps), every assignment of address/cluster to identities (64 tables quick, 256 thorough), up/down notifications in any admissible order, RTT samples {1,(40),1000} ms for current and former addresses; presence, identity (ts/address/cluster) and ring/ring0 invariants in every state; shortest counterexample re-derived by FIFO search. 3.4e5 states quick, 3.0e7 thorough, to fix-point.",
@@ -86,6 +90,7 @@ def main():
         "engines": [
             {"name": "booked", "path": "harness/src/bin/booked.rs", "serves_properties": ["C02"], "kind_free_text": "BFS to fix-point over real bookkeeping + replay-BFS over a real node"},
             {"name": "codec", "path": "harness/src/bin/codec.rs", "serves_properties": ["C09"], "kind_free_text": "exhaustive bounded input enumeration in child processes"},
+            {"name": "ingest", "path": "harness/src/bin/ingest.rs", "serves_properties": ["C10"], "kind_free_text": "exhaustive arrival sequences through the real handle_changes loop"},
             {"name": "members", "path": "harness/src/bin/members.rs", "serves_properties": ["C18"], "kind_free_text": "stateright BFS over the real Members methods"},
             {"name": "repl", "path": "harness/src/bin/repl.rs", "serves_properties": ["C01", "C03", "C05", "C06"], "kind_free_text": "replay-from-history explicit-state BFS over 2-3 real nodes"},
             {"name": "pure", "path": "harness/src/bin/pure.rs", "serves_properties": ["C04", "C08"], "kind_free_text": "exhaustive small-scope enumeration of pure functions against set models"},
